@@ -317,6 +317,8 @@ def _streams_install(lib):
     def sym_attr(I, v, name, fr, node):
         if v.kind == "bytes" and name == "decode":
             def decode(I2, a, k):
+                if k or (a and a[0] not in ("utf-8", "utf8", "UTF-8")) or len(a) > 1:
+                    raise Unsupported("bytes.decode with an encoding other than utf-8 or an errors argument")
                 if not I2.c.branch(L.utf8_ok(v.term), "utf8-ok"):
                     raise RaiseSig(_exc(I2, "UnicodeDecodeError", node))
                 return Sym(L.utf8_dec(v.term), "str")
